@@ -393,6 +393,8 @@ Definition record_true (b : backend) (pkgs : list pkg) (init : fsmap) (f : final
       exists k' h', In h' (p_files (nth k' pkgs no_pkg)) /\ In h' (nth k' (f_files f) []) /\
         h_kind h' = KSym /\ h_path h' = h_path h /\
         fs_get (f_fs f) (h_path h) = Some (NSym (h_sum h') (Some k') (h_link h')) /\
+        (* the record of the package the node names (the last writer) is this very link *)
+        (k' = k -> h' = h) /\
         (is_lazy b = false -> k' = k /\ h_sum h' = h_sum h /\ h_link h' = h_link h) /\
         (links_agree pkgs -> h_sum h' = h_sum h /\ h_link h' = h_link h)
   | KLink =>
@@ -443,6 +445,8 @@ Proof.
       rewrite K' in C. destruct C as [C1 C2].
       exists k', h'. split; [exact A|]. split; [exact A'|]. split; [exact K'|]. split; [exact B|].
       split; [subst n; reflexivity|]. split.
+      { intro Ek. subst k'. eapply Hnd; [eapply nth_in_pkgs; exact A | exact A | apply Hsub; exact Hl | exact B]. }
+      split.
       * intro Lz. pose proof (db_symlink_entries_stream b pkgs init f Lz H k entries h Hn Hin K) as S.
         rewrite G, C1 in S. inversion S. auto.
       * intro Hag. exact (Hag h' h Hall' Hall K' K B).
